@@ -1,5 +1,8 @@
 import Qryn.Proofs.RotateRun
+import Qryn.Proofs.RotateAnyStart
+import Qryn.Proofs.RotateCluster
 import Qryn.Gen.Rotate
+import Qryn.Gen.CtrlFlow
 /-! # C19 — retention settings converge to the configuration and re-applying them is a no-op
 
 Model: `Qryn.Ctrl.Rotate.run` = one call of `maintenance.Rotate` (ctrl/qryn/maintenance/rotate.go) over the
@@ -351,5 +354,244 @@ theorem clamp (c : Cfg) : ∀ g ∈ defs, g.kind = .ttl → ∀ t ∈ g.tables, 
     one of 5 s becomes the minimum -/
 example : tierSec 60 2147483648000000000 = 2147483648 ∧ tierSec 60 5000000000 = 60 ∧ tierSec 86400 (-1) = 86400 := by
   decide
+
+/-! # Any start database: where `Rotate` repairs and where it does not -/
+
+/-- **No hypothesis on the records.** From ANY database — also one in which a record lies (written by the pinned
+    tree before its tables were altered, or edited by hand) — a fault-free run leaves, for every acting group: the
+    desired value recorded; the group's tables at the desired value IF the record differed from it before the run;
+    the group's tables exactly as they were if the record already equalled it. -/
+theorem converges_any_start (c : Cfg) (s : St) : ∀ g ∈ defs, active c g = true →
+    (run defs c none s).st.marker g.fp = desired c g ∧
+    (s.marker g.fp = desired c g → ∀ t ∈ g.tables, attr g.kind (run defs c none s).st t = attr g.kind s t) ∧
+    (s.marker g.fp ≠ desired c g → ∀ t ∈ g.tables, attr g.kind (run defs c none s).st t = desired c g) :=
+  fun g hg hact => runGroups_any_start groups_well_formed c defs (fun _ h => h) groups_well_formed.1 ⟨s, []⟩ g hg hact
+
+/-- **Exactly when a damaged database is repaired**: after a fault-free run the tables of an acting group carry the
+    configured value iff the record differed from it (the group was redone) or they carried it already. In particular a
+    record that is AHEAD of the tables and equal to the configuration is never repaired by `Rotate` — it takes a change
+    of the configuration (or dropping the settings row). -/
+theorem repaired_iff (c : Cfg) (s : St) (g : GroupDef) (hg : g ∈ defs) (hact : active c g = true) :
+    (∀ t ∈ g.tables, attr g.kind (run defs c none s).st t = desired c g) ↔
+      (s.marker g.fp ≠ desired c g ∨ ∀ t ∈ g.tables, attr g.kind s t = desired c g) := by
+  obtain ⟨_, h2, h3⟩ := converges_any_start c s g hg hact
+  constructor
+  · intro h
+    by_cases he : s.marker g.fp = desired c g
+    · right; intro t ht; rw [← h2 he t ht]; exact h t ht
+    · left; exact he
+  · rintro (h | h)
+    · exact h3 h
+    · by_cases he : s.marker g.fp = desired c g
+      · intro t ht; rw [h2 he t ht]; exact h t ht
+      · exact h3 he
+
+/-- the group that decides the TTL of `samples_v3` -/
+def gSamples : GroupDef :=
+  (defs.find? fun g => g.kind == .ttl && g.tables.contains samples_v3).getD ⟨.ttl, [], 0, [], 0, [], []⟩
+
+/-- a lying record is really not repaired: tables without TTL, record already equal to the configuration -/
+example :
+    let c : Cfg := ⟨[], false, [], 7, []⟩
+    let g : GroupDef := gSamples
+    let s : St := ⟨fun fp => if fp = g.fp then desired c g else [], fun _ => [], fun _ => []⟩
+    (run defs c none s).ok = true ∧ (run defs c none s).st.ttl samples_v3 = [] ∧ ttlWant g c ≠ [] := by
+  decide +kernel
+
+/-! # The cluster: N nodes, `ON CLUSTER` ALTERs applied to any subset, any connection
+
+Model `Qryn.Ctrl.RotateCluster`: per-node TTL / storage policy; `settings` rows live on the node they were inserted on;
+`getSetting` reads `settings_dist` (all nodes) iff `distributed`; an ALTER carries `ON CLUSTER` iff `clusterName != ""`
+and then runs on every node, a failure leaving it applied on any set of nodes; every run may be connected to another
+node. -/
+
+/-- `rotateDB` passes `distributed = (ClusterName != "")` (re-extracted): the two layouts the theorems are stated for -/
+theorem rotate_layout_fact :
+    Qryn.Gen.CtrlFlow.rotateDB.getLast? =
+      some "return Rotate(connDb, dbObject.ClusterName, dbObject.ClusterName != \"\", ttlPolicy, dbObject.TTLDays, dbObject.StoragePolicy, logger.Logger)" ∧
+    Qryn.Gen.CtrlFlow.ctrlRotate =
+      ["var err error", "proj, ok := projects[project]",
+       "if !ok { return fmt.Errorf(\"project %s not found\", project) }",
+       "for _, db := range config.Setting.DATABASE_DATA { err = proj.init(&db, logger.Logger) if err != nil { panic(err) } }",
+       "err = proj.rotate(config.Setting.DATABASE_DATA, logger.Logger)",
+       "return err"] := ⟨rfl, rfl⟩
+
+/-- **Where the record is read from and written to** (re-extracted): `getSetting` reads `settings_dist` exactly when
+    `dist`, else `settings`; `putSetting` inserts into the connected node's `settings`. -/
+theorem settings_tables_fact :
+    "settings := \"settings\"" ∈ Qryn.Gen.CtrlFlow.getSetting ∧
+    "if dist { settings += \"_dist\" }" ∈ Qryn.Gen.CtrlFlow.getSetting ∧
+    (Qryn.Gen.CtrlFlow.getSetting.filter fun l => l.startsWith "rows, err := db.Query(") =
+      ["rows, err := db.Query(context.Background(), fmt.Sprintf(`SELECT argMax(value, inserted_at) as _value FROM %s WHERE fingerprint = $1 GROUP BY fingerprint HAVING argMax(name, inserted_at) != ''`, settings), fp)"] ∧
+    Qryn.Gen.CtrlFlow.getSetting.length = 8 ∧
+    "err := db.Exec(context.Background(), `INSERT INTO settings (fingerprint, type, name, value, inserted_at) VALUES ($1, $2, $3, $4, now64(9))`, fp, tp, name, value)" ∈ Qryn.Gen.CtrlFlow.putSetting := by
+  decide +kernel
+
+/-- a configured cluster: `ON CLUSTER` on every ALTER, records read from `settings_dist` -/
+def Clustered (c : Cfg) : Prop := c.dist = true ∧ c.cluster ≠ []
+
+/-- **cluster_rotate_refines.** On a configured cluster, for every node `i`, every connection, every failure point
+    (any statement, taking effect on any set of nodes): what node `i` holds after the cluster run (its TTLs, its
+    policies, the records a process connected to it reads) is what its own single-database run of `Rotate` leaves, with
+    the same failing statement and one of the two "applied" flags; same statement log, same reported result. Without a
+    cluster the same holds for the connected node (`hP` with `i = conn`). -/
+theorem cluster_rotate_refines (c : Cfg) (conn : Nat) (f : Option CFault) (cs : CSt) (i : Nat) (hc : conn < cs.n)
+    (hP : i < cs.n ∧ (i = conn ∨ Clustered c)) :
+    ∃ b, cview c.dist (crun defs c conn f cs).cs i = (run defs c (sf f b) (cview c.dist cs i)).st ∧
+      (crun defs c conn f cs).log = (run defs c (sf f b) (cview c.dist cs i)).log ∧
+      (crun defs c conn f cs).ok = (run defs c (sf f b) (cview c.dist cs i)).ok := by
+  obtain ⟨b, h1, h2, h3, _⟩ := crun_refines defs c conn f cs i hc hP
+  exact ⟨b, h1, h2, h3⟩
+
+/-- the record is never ahead of the tables ON ANY NODE: `Inv` of every node's view is kept by every cluster run -/
+theorem cluster_marker_implies_altered (c : Cfg) (hl : Clustered c) (conn : Nat) (f : Option CFault) (cs : CSt)
+    (h : ∀ i, i < cs.n → Inv defs (cview true cs i)) :
+    ∀ i, i < cs.n → Inv defs (cview true (crun defs c conn f cs).cs i) := by
+  intro i hi
+  by_cases hc : conn < cs.n
+  · obtain ⟨b, h1, _⟩ := crun_refines defs c conn f cs i hc ⟨hi, Or.inr hl⟩
+    rw [hl.1] at h1
+    rw [h1]
+    exact marker_implies_altered c (sf f b) _ (h i hi)
+  · simp only [crun, hc, if_false]; exact h i hi
+
+/-- where a node ends after an uninterrupted run -/
+abbrev target (c : Cfg) (s : St) : St := (run defs c none s).st
+
+/-- one more run of the same configuration, interrupted anywhere or not at all, does not change where the node ends -/
+theorem target_stable (c : Cfg) (s : St) (h : Inv defs s) (f : Option Fault) :
+    target c (run defs c f s).st = target c s := by
+  cases f with
+  | none => exact (reapply_noop c s h none).2
+  | some ft => exact interrupted_then_completed c [ft] s h
+
+/-- the runs of one configuration: (connection, failure point) -/
+def sameCfg (c : Cfg) (sch : List (Nat × Option CFault)) : List (Nat × Cfg × Option CFault) :=
+  sch.map fun p => (p.1, c, p.2)
+
+private theorem cafter_keeps (c : Cfg) (hl : Clustered c) : ∀ (sch : List (Nat × Option CFault)) (cs : CSt),
+    (∀ i, i < cs.n → Inv defs (cview true cs i)) →
+    (cafter defs (sameCfg c sch) cs).n = cs.n ∧
+    ∀ i, i < cs.n → Inv defs (cview true (cafter defs (sameCfg c sch) cs) i) ∧
+      target c (cview true (cafter defs (sameCfg c sch) cs) i) = target c (cview true cs i) := by
+  intro sch
+  induction sch with
+  | nil => intro cs h; exact ⟨rfl, fun i hi => ⟨h i hi, rfl⟩⟩
+  | cons p r ih =>
+    intro cs h
+    obtain ⟨conn, f⟩ := p
+    have hcons : sameCfg c ((conn, f) :: r) = (conn, c, f) :: sameCfg c r := rfl
+    rw [hcons]
+    simp only [cafter]
+    have hn := crun_n defs c conn f cs
+    have hinv := cluster_marker_implies_altered c hl conn f cs h
+    obtain ⟨a, b⟩ := ih (crun defs c conn f cs).cs (fun i hi => hinv i (by rw [← hn]; exact hi))
+    refine ⟨by rw [← hn]; exact a, ?_⟩
+    intro i hi
+    obtain ⟨b1, b2⟩ := b i (by rw [hn]; exact hi)
+    refine ⟨b1, ?_⟩
+    rw [b2]
+    by_cases hc : conn < cs.n
+    · obtain ⟨bb, h1, _⟩ := crun_refines defs c conn f cs i hc ⟨hi, Or.inr hl⟩
+      rw [hl.1] at h1
+      rw [h1]
+      exact target_stable c _ (h i hi) (sf f bb)
+    · simp only [crun, hc, if_false]
+
+/-- **cluster_rotate_converges.** A configured cluster of ANY size, every node's view satisfying `Inv` (a fresh
+    cluster, or any cluster reached by runs of the fixed code), a configuration `c`: after ANY sequence of runs of `c`
+    — each connected to any node (or to none), each interrupted at any statement after it took effect on any set of
+    nodes, or not interrupted — one more uninterrupted run, connected to any node, reports success and leaves EVERY
+    node exactly where that node's own uninterrupted single-database run would have left it: in particular every data
+    table of every node has the configured TTL and (when configured) storage policy. -/
+theorem cluster_rotate_converges (c : Cfg) (hl : Clustered c) (cs : CSt)
+    (h : ∀ i, i < cs.n → Inv defs (cview true cs i)) (sch : List (Nat × Option CFault)) (conn : Nat) (hc : conn < cs.n) :
+    (crun defs c conn none (cafter defs (sameCfg c sch) cs)).ok = true ∧
+    ∀ i, i < cs.n →
+      cview true (crun defs c conn none (cafter defs (sameCfg c sch) cs)).cs i = target c (cview true cs i) ∧
+      ∀ t ∈ dataTables,
+        (∃ g ∈ defs, g.kind = .ttl ∧ t ∈ g.tables ∧
+          (crun defs c conn none (cafter defs (sameCfg c sch) cs)).cs.ttl i t = ttlWant g c) ∧
+        (c.policy ≠ [] → (crun defs c conn none (cafter defs (sameCfg c sch) cs)).cs.policy i t = c.policy) := by
+  obtain ⟨hn, hk⟩ := cafter_keeps c hl sch cs h
+  have hc' : conn < (cafter defs (sameCfg c sch) cs).n := by rw [hn]; exact hc
+  constructor
+  · have := (crun_refines_clean defs c conn _ conn hc' ⟨hc', Or.inl rfl⟩).2.2
+    rw [this]
+    exact runGroups_none_ok c defs _
+  · intro i hi
+    have hi' : i < (cafter defs (sameCfg c sch) cs).n := by rw [hn]; exact hi
+    obtain ⟨h1, _, _⟩ := crun_refines_clean defs c conn _ i hc' ⟨hi', Or.inr hl⟩
+    rw [hl.1] at h1
+    obtain ⟨hinv, htg⟩ := hk i hi
+    have hview : cview true (crun defs c conn none (cafter defs (sameCfg c sch) cs)).cs i = target c (cview true cs i) := by
+      rw [h1]; exact htg
+    refine ⟨hview, ?_⟩
+    intro t ht
+    have hconv := (converges c (cview true cs i) (h i hi)).2 t ht
+    have ht1 : (crun defs c conn none (cafter defs (sameCfg c sch) cs)).cs.ttl i t = (target c (cview true cs i)).ttl t := by
+      rw [← hview]; rfl
+    have hp1 : (crun defs c conn none (cafter defs (sameCfg c sch) cs)).cs.policy i t = (target c (cview true cs i)).policy t := by
+      rw [← hview]; rfl
+    rw [ht1, hp1]
+    exact hconv
+
+/-- **Second run on a cluster: reads only, nothing changes on any node.** After an uninterrupted run of `c` on a
+    configured cluster, another run of `c` — connected to any node, even one in which a statement fails — sends only
+    settings reads and leaves every node as it is. -/
+theorem cluster_reapply_noop (c : Cfg) (hl : Clustered c) (cs : CSt) (h : ∀ i, i < cs.n → Inv defs (cview true cs i))
+    (conn conn' : Nat) (hc : conn < cs.n) (hc' : conn' < cs.n) (f : Option CFault) :
+    (∀ x ∈ (crun defs c conn' f (crun defs c conn none cs).cs).log, x.isAlter = false ∧ x.isRead = true) ∧
+    ∀ i, i < cs.n → cview true (crun defs c conn' f (crun defs c conn none cs).cs).cs i =
+      cview true (crun defs c conn none cs).cs i := by
+  have hn := crun_n defs c conn none cs
+  have hc2 : conn' < (crun defs c conn none cs).cs.n := by rw [hn]; exact hc'
+  have first : ∀ i, i < cs.n → cview true (crun defs c conn none cs).cs i = target c (cview true cs i) := by
+    intro i hi
+    have := (crun_refines_clean defs c conn cs i hc ⟨hi, Or.inr hl⟩).1
+    rw [hl.1] at this; exact this
+  constructor
+  · obtain ⟨b, _, h2, _⟩ := crun_refines defs c conn' f (crun defs c conn none cs).cs conn' hc2 ⟨hc2, Or.inl rfl⟩
+    rw [h2, hl.1, first conn' hc']
+    exact (reapply_noop c (cview true cs conn') (h conn' hc') (sf f b)).1
+  · intro i hi
+    obtain ⟨b, h1, _⟩ := crun_refines defs c conn' f (crun defs c conn none cs).cs i hc2 ⟨by rw [hn]; exact hi, Or.inr hl⟩
+    rw [hl.1] at h1
+    rw [h1, first i hi]
+    exact (reapply_noop c (cview true cs i) (h i hi) (sf f b)).2
+
+/-- **Any start cluster**: no hypothesis on the records, node by node — after an uninterrupted run every node whose
+    tables the record lied about is repaired exactly when the record differed from the configuration (`repaired_iff`
+    applied to the node's view). -/
+theorem cluster_any_start (c : Cfg) (hl : Clustered c) (cs : CSt) (conn : Nat) (hc : conn < cs.n) (i : Nat) (hi : i < cs.n)
+    (g : GroupDef) (hg : g ∈ defs) (hact : active c g = true) :
+    (∀ t ∈ g.tables, attr g.kind (cview true (crun defs c conn none cs).cs i) t = desired c g) ↔
+      ((cview true cs i).marker g.fp ≠ desired c g ∨ ∀ t ∈ g.tables, attr g.kind (cview true cs i) t = desired c g) := by
+  have := (crun_refines_clean defs c conn cs i hc ⟨hi, Or.inr hl⟩).1
+  rw [hl.1] at this
+  rw [this]
+  exact repaired_iff c (cview true cs i) g hg hact
+
+/-- without a cluster a run leaves every node it is not connected to exactly as it was -/
+theorem local_rotate_frame (c : Cfg) (hcl : c.cluster = []) (conn : Nat) (f : Option CFault) (cs : CSt) (i : Nat)
+    (hi : i ≠ conn) : cview false (crun defs c conn f cs).cs i = cview false cs i :=
+  crun_frame defs c hcl conn f cs i hi
+
+/-- non-vacuity: a fresh cluster of any size satisfies the hypothesis of `cluster_rotate_converges` -/
+example (n : Nat) : ∀ i, i < (freshCluster n).n → Inv defs (cview true (freshCluster n) i) := by
+  intro i _ g _ hne
+  exact absurd rfl hne
+
+/-- **Why `distributed` must be `clusterName != ""`** (the layout `rotateDB` passes, `rotate_layout_fact`): with
+    `ON CLUSTER` ALTERs but records read from the connected node's own `settings` table, three uninterrupted runs
+    behind a load balancer — 7 days on node 0, 30 days on node 1, 7 days on node 0 again — end with success reported
+    and every table at 30 days: node 0 still holds the record of the first run. Kernel-evaluated on two nodes. -/
+theorem mixed_layout_counterexample :
+    let c7 : Cfg := ⟨[99], false, [], 7, []⟩
+    let c30 : Cfg := ⟨[99], false, [], 30, []⟩
+    let g : GroupDef := gSamples
+    let cs := (crun defs c7 0 none (crun defs c30 1 none (crun defs c7 0 none (freshCluster 2)).cs).cs)
+    cs.ok = true ∧ cs.log.length = 8 ∧ cs.cs.ttl 0 samples_v3 ≠ ttlWant g c7 ∧ cs.cs.ttl 0 samples_v3 = ttlWant g c30 := by
+  decide +kernel
 
 end Qryn.C19
